@@ -79,6 +79,8 @@ def distance_matrix(cur, block=None, **kwargs):
         dtaidistancec_dtw_omp.dtw_distances_matrix_parallel(
             &matrix._data[0,0], matrix.nb_rows, matrix.nb_cols,
             dists.data.as_doubles, &dtwblock._block, &settings._settings)
+    else:
+        raise Exception("Unknown series container")
 
     return dists
 
